@@ -50,16 +50,6 @@ def setCache (s : St) (sid : String) (c : Cache) : St :=
 
 /-! ### spec side -/
 
-/-- the lines of the last file that are wholly before byte `k`, and the fragment after them (if any) -/
-def splitAtCut : List Item → Nat → List Item × Option (Item × Bytes)
-  | [], _ => ([], none)
-  | it :: r, k =>
-    let l := fat it ++ [LF]
-    if l.length ≤ k then
-      let (a, b) := splitAtCut r (k - l.length)
-      (it :: a, b)
-    else if k = 0 then ([], none) else ([], some (it, l.take k))
-
 structure View where
   perFile : List (List Item)            -- the items the property speaks about, per retained file
   torn : Option Item                    -- a fragment that parses to an item that was never written
@@ -83,12 +73,10 @@ def view (s : St) (w : Writer) : View :=
       let (its, torn) := match s.cutD with
         | none => (f.lines, none)
         | some k =>
-          let (a, fr) := splitAtCut f.lines k
-          match fr with
-          | none => (a, none)
-          | some (orig, frag) => match parseLine (dropCR frag) with
-            | none => (a, none)
-            | some it' => if it' = orig then (a ++ [orig], none) else (a, some it')
+          let a := wholeLines f.lines k
+          match tornItem f.lines k, parseLine (dropCR (fragment f.lines k)) with
+          | some orig, some it' => if it' = orig then (a ++ [orig], none) else (a, some it')
+          | _, _ => (a, none)
       let ents := match s.cutI with
         | none => f.ents
         | some k => f.ents.take (k / 16)
@@ -139,7 +127,8 @@ def step (spec : Bool) (s : St) (ts : List String) (_ : String) : St × Option S
       | _, _ => (s, some "bad-op")
   | "log.write" :: t :: n :: items => match s.w, t.toNat?, n.toNat?, items.mapM parseItem? with
       | some w, some t, some n, some items =>
-        if s.closed ∨ n ≠ items.length then (s, some "bad-op")
+        if n ≠ items.length then (s, some "bad-op")
+        else if s.closed then (s, some "closed")
         else if n = 0 then (s, none)
         else if t = 0 then (s, some "err")
         else ({ s with w := some (w.write t items) }, none)
